@@ -78,6 +78,17 @@ type GhostDecl struct {
 	Val  string // spec type of value
 }
 
+// DeriveDecl: for objects of concrete type Type the ghost field Ghost is not
+// stored but defined by Body over the object ("this").
+type DeriveDecl struct {
+	Ghost string
+	Type  string // e.g. *CountingWriter
+	Pkg   string
+	Body  Expr
+	Text  string
+	Touches []Expr // further locations an update of the ghost field writes
+}
+
 type AxiomDecl struct {
 	Name string
 	E    Expr
@@ -100,6 +111,7 @@ type Specs struct {
 	UFs       map[string]*UFDecl
 	Defs      map[string]*DefDecl
 	Ghosts    map[string]*GhostDecl
+	Derives   []*DeriveDecl
 	Axioms    []*AxiomDecl
 	Lemmas    []*LemmaDecl
 	Files     []string
@@ -114,7 +126,7 @@ var clauseKeywords = map[string]bool{
 	"requires": true, "ensures": true, "assigns": true, "decreases": true, "loop": true,
 	"invariant": true, "unroll": true, "inline": true, "pure": true, "trusted": true,
 	"panics_if": true, "may_panic": true, "props": true, "uf": true, "def": true, "ghost": true,
-	"axiom": true, "lemma": true, "end": true, "modifies": true, "noframe": true, "bounds": true,
+	"axiom": true, "lemma": true, "derive": true, "end": true, "modifies": true, "noframe": true, "bounds": true,
 	"package": true,
 }
 
@@ -222,6 +234,31 @@ func (s *Specs) LoadSpecFile(path string, pkgPath string) error {
 			}
 			g := &GhostDecl{Name: strings.TrimSpace(rest[:lp]), Key: strings.TrimSpace(rest[lp+1 : rp]), Val: strings.TrimSpace(rest[rp+1:])}
 			s.Ghosts[g.Name] = g
+		case "derive":
+			// derive ghost(*T) = expr over "this"
+			lp := strings.Index(rest, "(")
+			rp := strings.Index(rest, ")")
+			eqi := strings.Index(rest, "=")
+			if lp < 0 || rp < lp || eqi < rp {
+				return perr(rl.line, "bad derive")
+			}
+			bodyText := rest[eqi+1:]
+			var touches []Expr
+			if ti := strings.Index(bodyText, "; touches"); ti >= 0 {
+				for _, part := range splitTop(bodyText[ti+len("; touches"):], ',') {
+					te, err := ParseExpr(part)
+					if err != nil {
+						return perr(rl.line, "derive touches: %v", err)
+					}
+					touches = append(touches, te)
+				}
+				bodyText = bodyText[:ti]
+			}
+			e, err := ParseExpr(bodyText)
+			if err != nil {
+				return perr(rl.line, "derive: %v", err)
+			}
+			s.Derives = append(s.Derives, &DeriveDecl{Ghost: strings.TrimSpace(rest[:lp]), Type: strings.TrimSpace(rest[lp+1 : rp]), Pkg: pkgPath, Body: e, Text: rest, Touches: touches})
 		case "def":
 			// def name(a T, b T) T = expr
 			eq := strings.Index(rest, "=")
